@@ -15,7 +15,7 @@ pub const DEF: PropDef = PropDef {
     run,
     replay,
     level: "exploration",
-    rule: "(transport) messages LONGER than 65535 bytes that are valid ciphertexts under the session key (sealed with the reference cipher under the reference Split() keys; lengths 65536, 65537, +15, +16, +17, +32, +100; stateful and stateless; both backends) must be refused, while the 65535-byte one sealed the same way is accepted; enumeration: for every handshake string x DH x message index, payload lengths {0,1,16,17, classes, max-2..max+2, 65535, 66000} x output buffers {predicted-17..predicted+17 around the prediction, 0, 65535, 65536, 66000}; reads of genuine messages with payload buffers around the payload length, of messages shorter than the fixed fields (every length in thorough) and longer than 65535; transport and stateless likewise. Prediction = sum of public-key lengths + 16 per encrypted field + payload length from the reference field map. Non-trivial = the call's outcome is constrained by the property (must succeed with the exact length, or must fail with the input error); distinct by (name, message, payload length, buffer length, kind)",
+    rule: "(transport) messages LONGER than 65535 bytes that are valid ciphertexts under the session key (sealed with the reference cipher under the reference Split() keys; lengths 65536, 65537, +15, +16, +17, +32, +100; stateful and stateless; both backends) must be refused, while the 65535-byte one sealed the same way is accepted; enumeration: for every handshake string x DH x message index, payload lengths {0,1,16,17, classes, max-2..max+2, 65535, 66000} x output buffers {predicted-17..predicted+17 around the prediction, 0, 65535, 65536, 66000}; reads of genuine messages with payload buffers around the payload length, of messages shorter than the fixed fields (every length in thorough) and longer than 65535; transport and stateless likewise. One session in five has PSKs in slots the name does not use (also names without a psk modifier). Prediction = sum of public-key lengths + 16 per encrypted field + payload length from the reference field map. Non-trivial = the call's outcome is constrained by the property (must succeed with the exact length, or must fail with the input error); distinct by (name, message, payload length, buffer length, kind)",
     technique: "boundary-value enumeration against a reference length model (field maps of the clean-room Noise model)",
     assumptions: &[
         "between `predicted` and `predicted+15` bytes of output buffer either outcome is accepted: no listed property says an exactly fitting buffer must succeed, and the code asks for 16 spare bytes even for an unencrypted payload",
@@ -35,6 +35,31 @@ fn must_succeed<T: std::fmt::Debug>(res: &Result<T, Error>, ctx: &str, what: &st
         Err(Error::Input) => Err(Fail::new(format!("{ctx}: {what}, got Err(Input)"))),
         Err(x) => Err(Fail::setup(format!("{ctx}: {what}, but the call failed for a reason unrelated to framing: {x:?}"))),
     }
+}
+
+/// `drive_to`, but in one session out of five both endpoints first receive PSKs in slots the
+/// name does not use (on names without any psk modifier too): the documentation allows that
+/// ("Snow won't stop you from placing a PSK in an unused slot") and the specification's message
+/// lengths do not depend on it.
+fn drive_to_maybe_stray(spec: &SessionSpec, idx: usize) -> Result<Pair, Fail> {
+    if spec.key_seed % 5 != 2 {
+        return drive_to(spec, idx);
+    }
+    let mut pair = build_pair(spec, None)?;
+    for slot in 0..10u8 {
+        if !spec.hs.psks.contains(&slot) && (spec.key_seed >> (8 + slot)) & 1 == 1 {
+            let k = crate::engine::expand32(spec.key_seed, 700 + slot as u64);
+            pair.i.set_psk(slot as usize, &k).map_err(|x| Fail::setup(format!("set_psk({slot}): {x:?}")))?;
+            pair.r.set_psk(slot as usize, &k).map_err(|x| Fail::setup(format!("set_psk({slot}): {x:?}")))?;
+        }
+    }
+    for k in 0..idx {
+        let payload = spec.payload(k, 3);
+        let (w, r) = if k % 2 == 0 { (&mut pair.i, &mut pair.r) } else { (&mut pair.r, &mut pair.i) };
+        let msg = hs_write(w, &payload, 65535).map_err(|e| Fail::setup(format!("{}: honest prefix write {k}: {e:?}", spec.name_string())))?;
+        hs_read(r, &msg, 65535).map_err(|e| Fail::setup(format!("{}: honest prefix read {k}: {e:?}", spec.name_string())))?;
+    }
+    Ok(pair)
 }
 
 #[derive(Clone, Debug, Serialize, Deserialize)]
@@ -59,7 +84,10 @@ fn oracle(c: &Case, acc: &mut Acc) -> CaseResult {
     let spec = &c.spec;
     let name = spec.name_string();
     let lay = &spec.layouts()[c.idx];
-    let mut pair = drive_to(spec, c.idx)?;
+    let mut pair = drive_to_maybe_stray(spec, c.idx)?;
+    if spec.key_seed % 5 == 2 {
+        acc.label("stray_psks_in_unused_slots");
+    }
     let i_sends = c.idx % 2 == 0;
     let (w, r) = if i_sends { (&mut pair.i, &mut pair.r) } else { (&mut pair.r, &mut pair.i) };
     match &c.kind {
@@ -80,7 +108,7 @@ fn oracle(c: &Case, acc: &mut Acc) -> CaseResult {
                     // control: the same call with a small payload and an ample buffer on a fresh,
                     // identically driven session. If that fails with the same error, the call
                     // fails for a reason unrelated to framing (not this property's business)
-                    let mut p2 = drive_to(spec, c.idx)?;
+                    let mut p2 = drive_to_maybe_stray(spec, c.idx)?;
                     let w2 = if i_sends { &mut p2.i } else { &mut p2.r };
                     let mut big = vec![0u8; 65535];
                     let ctl = w2.write_message(&payload[..payload.len().min(3)], &mut big);
